@@ -103,7 +103,7 @@ func c10Edits() []c10Edit {
 func TestVerifC10Config(t *testing.T) {
 	rep := report.New("C10 configuration errors (real binary)")
 	defer rep.Write()
-	rep.Rule = "real binary built from the current tree, run as `mosproxy router -c file`: the good YAML must start (\"router is up and running\"), each of the error variants (unknown key at every nesting level, misspelled key, unknown/duplicate/missing tags, unknown protocol/scheme, missing file) and every rule shape {domain none/known/unknown} x reject {0,3} x forward {none/known/unknown} x reverse that names an unknown tag must exit non-zero with an error message and without panic/goroutine dump; distinct = distinct configurations"
+	rep.Rule = "real binary built from the current tree, run as `mosproxy router -c file`: the good YAML must start (\"router is up and running\"), each of the error variants (unknown key at every nesting level, misspelled key, unknown/duplicate/missing tags, unknown protocol/scheme, missing file) and every rule shape {domain none/known/unknown} x reject {0,3} x forward {none/known/unknown} x reverse that names an unknown tag, placed first / between the good rules / last (behind the catch-all forward rule) / behind a catch-all reject rule, must exit non-zero with an error message and without panic/goroutine dump; distinct = distinct configurations"
 	if sh, _ := report.Shard(); sh != 0 {
 		rep.Eval("idle-shard")
 		rep.Eval("idle-shard2")
@@ -207,20 +207,41 @@ func TestVerifC10Config(t *testing.T) {
 						fs = []string{"reject: 0"}
 					}
 					rule += strings.Join(fs, "\n    ")
-					name := fmt.Sprintf("rule{domain=%q reject=%d forward=%q reverse=%v}", dom, rej, fwd, rev)
-					yaml := strings.Replace(good, "  - forward: u2", rule+"\n  - forward: u2", 1)
 					bad := dom == "nosuchset" || fwd == "nosuchupstream"
-					exit, stderr, up := run("rule", yaml)
-					rep.Eval(name)
-					switch {
-					case strings.Contains(stderr, "panic:") || strings.Contains(stderr, "goroutine "):
-						rep.Violate("C10:config:panic:rule", name+":\n"+stderr, nil)
-					case bad && up:
-						rep.Violate("C10:config:accepted:unknown-tag-in-"+name, "the router started although "+name+" names an unknown tag", nil)
-					case bad && exit == 0:
-						rep.Violate("C10:config:no-error-exit:"+name, stderr, nil)
-					case !bad && !up:
-						rep.Violate("C10:config:good-config-rejected:"+name, fmt.Sprintf("exit %d: %s", exit, stderr), nil)
+					// where the rule stands in the list: between the two good rules, first, last (behind the catch-all forward rule),
+					// or behind a catch-all reject rule - a rule that can never be reached is still checked when the file is loaded
+					places := []string{"middle"}
+					if bad {
+						places = []string{"middle", "first", "last", "behind-catch-all-reject"}
+					}
+					for _, place := range places {
+						name := fmt.Sprintf("rule{domain=%q reject=%d forward=%q reverse=%v}@%s", dom, rej, fwd, rev, place)
+						var yaml string
+						switch place {
+						case "middle":
+							yaml = strings.Replace(good, "  - forward: u2", rule+"\n  - forward: u2", 1)
+						case "first":
+							yaml = strings.Replace(good, "rules:\n", "rules:\n"+rule+"\n", 1)
+						case "last":
+							yaml = strings.Replace(good, "  - forward: u2", "  - forward: u2\n"+rule, 1)
+						default:
+							yaml = strings.Replace(good, "  - forward: u2", "  - reject: 3\n"+rule, 1)
+						}
+						if yaml == good {
+							t.Fatalf("harness: rule placement %s does not apply", place)
+						}
+						exit, stderr, up := run("rule", yaml)
+						rep.Eval(name)
+						switch {
+						case strings.Contains(stderr, "panic:") || strings.Contains(stderr, "goroutine "):
+							rep.Violate("C10:config:panic:rule", name+":\n"+stderr, nil)
+						case bad && up:
+							rep.Violate("C10:config:accepted:unknown-tag-in-"+name, "the router started although "+name+" names an unknown tag", nil)
+						case bad && exit == 0:
+							rep.Violate("C10:config:no-error-exit:"+name, stderr, nil)
+						case !bad && !up:
+							rep.Violate("C10:config:good-config-rejected:"+name, fmt.Sprintf("exit %d: %s", exit, stderr), nil)
+						}
 					}
 				}
 			}
